@@ -20,16 +20,24 @@ def obligation_smt2(ob):
     for f in ob.hyps:
         s.add(f)
     s.add(z3.Not(ob.goal))
+    for name, term in (ob.info.get('probes') or {}).items():
+        if name == '__prefer__':
+            for i, c in enumerate(term):
+                s.add(z3.Bool('prefer!%d' % i) == c)
+            continue
+        s.add(z3.Const('probe!' + name, term.sort()) == term)
     return s.to_smt2()
 
 
 def _solve_z3(args):
-    text, timeout_ms, want_model = args
+    text, timeout_ms, want_model = args[:3]
+    ground = args[3] if len(args) > 3 else True
     t0 = time.time()
     try:
         ctx = z3.Context()
         s = z3.Solver(ctx=ctx)
-        s.set('timeout', timeout_ms)
+        first = min(timeout_ms, 8000)
+        s.set('timeout', first)
         s.from_string(text)
         r = s.check()
         res = str(r)
@@ -44,6 +52,59 @@ def _solve_z3(args):
                     except Exception:
                         pass
         reason = s.reason_unknown() if res == 'unknown' else ''
+        if res == 'unknown' and ground:
+            # ground instantiation: unsat is a proof, sat only a candidate
+            from pyvc import inst
+            z3.main_ctx()
+            fs = z3.parse_smt2_string(text)
+            cand = None
+            for rounds, cap in ((1, 400), (2, 1500)):
+                qf, stats = inst.ground_vc(list(fs), rounds=rounds, cap=cap)
+                if sum(len(f.sexpr()) for f in qf) > 1500000:
+                    reason += '; ground(%d): too large' % rounds
+                    break
+                s2 = z3.Solver()
+                s2.set('timeout', min(timeout_ms, 15000 if rounds == 1 else 5000))
+                for f in qf:
+                    s2.add(f)
+                r2 = str(s2.check())
+                if r2 == 'unsat':
+                    return 'unsat', None, time.time() - t0, \
+                        'ground instances: %r' % (stats,)
+                if r2 == 'sat':
+                    m = s2.model()
+                    # prefer a model inside the replayable region
+                    prefs = [z3.Bool('prefer!%d' % i) for i in range(64)
+                             if 'prefer!%d' % i in text]
+                    if prefs:
+                        s2.push()
+                        for pb in prefs:
+                            s2.add(pb)
+                        if str(s2.check()) == 'sat':
+                            m = s2.model()
+                        s2.pop()
+                    model = {}
+                    for d in m.decls():
+                        try:
+                            model[d.name()] = str(m[d])[:400]
+                        except Exception:
+                            pass
+                    cand = (model, 'sat after %d round(s) of ground '
+                            'instantiation %r' % (rounds, stats))
+                    continue
+                reason += '; ground(%d): %s' % (rounds, s2.reason_unknown())
+                break
+            if cand is not None:
+                return 'candidate', cand[0], time.time() - t0, cand[1]
+            if timeout_ms > first:
+                s3 = z3.Solver(ctx=ctx)
+                s3.set('timeout', timeout_ms - first)
+                s3.from_string(text)
+                r3 = str(s3.check())
+                if r3 == 'unsat':
+                    return 'unsat', None, time.time() - t0, 'second attempt'
+                if r3 == 'sat':
+                    return 'sat', {}, time.time() - t0, 'second attempt'
         return res, model, time.time() - t0, reason
     except Exception as e:        # solver crash is `unknown`, never a verdict
         return 'unknown', None, time.time() - t0, 'z3 error: %r' % (e,)
@@ -88,7 +149,7 @@ class Result(object):
         self.smt2 = None
 
 
-def discharge(obligations, timeout_s=30, procs=None, both=False):
+def discharge(obligations, timeout_s=30, procs=None, both=False, ground=True):
     """Returns list of Result.  status: 'proved' (unsat), 'refuted' (sat, with
     model), 'unknown'."""
     procs = procs or min(16, os.cpu_count() or 4)
@@ -106,11 +167,12 @@ def discharge(obligations, timeout_s=30, procs=None, both=False):
     jobs = [(i, t) for i, t in enumerate(texts) if t is not None]
     if jobs:
         if len(jobs) == 1 or procs == 1:
-            outs = [_solve_z3((t, int(timeout_s * 1000), True)) for _, t in jobs]
+            outs = [_solve_z3((t, int(timeout_s * 1000), True, ground)) for _, t in jobs]
         else:
             ctx = multiprocessing.get_context('fork')
             with ctx.Pool(min(procs, len(jobs))) as pool:
-                outs = pool.map(_solve_z3, [(t, int(timeout_s * 1000), True)
+                outs = pool.map(_solve_z3, [(t, int(timeout_s * 1000), True,
+                                             ground)
                                             for _, t in jobs], chunksize=1)
         for (i, t), (res, model, secs, reason) in zip(jobs, outs):
             r = results[i]
@@ -121,6 +183,9 @@ def discharge(obligations, timeout_s=30, procs=None, both=False):
                 r.status = 'proved'
             elif res == 'sat':
                 r.status = 'refuted'
+                r.model = model
+            elif res == 'candidate':
+                r.status = 'candidate'
                 r.model = model
             if r.status == 'unknown' or both:
                 cres, csecs, creason = _solve_cvc5(t, timeout_s)
